@@ -511,6 +511,23 @@ def noBareDir (fs : FS) (o : Opts) (roots : List Path) (B : Path) (m : List Name
   !o.ns || verifyFrom fs (B ++ m.dropLast).reverse (m.length - 1) ||
     roots.all fun R => (nsDir fs true (R ++ m.dropLast) (m.getLast?.getD [])).isEmpty
 
+/-- some `.py[i]` file can be reached from `p` by a directory walk of depth ≤ `k` (no skipped name on the way) -/
+def hasSourceBelow (fs : FS) : Nat → Path → Bool
+  | 0, _ => false
+  | k + 1, p => (fs.listdir p).any fun n =>
+      !skipName n && (if fs.isDir (p ++ [n]) then hasSourceBelow fs k (p ++ [n]) else isPyExt (splitext n).2)
+
+/-- a same-named sibling directory `D/st` that shadows the module file `D/st.py[i]` in a directory listing is a
+    regular package with the same module name: it has an `__init__` file, is not an explicit base, its name is an
+    identifier other than `__init__`, and it contains no directory called `__init__` -/
+def cleanShadow (fs : FS) (o : Opts) (D : Path) (st : Name) : Bool :=
+  hasInit fs (D ++ [st]) && !o.isBase (D ++ [st]) && isIdent st && st != sInit && !fs.isDir (D ++ [st, sInit])
+
+/-- the F10 cell of `dir_complete_partial` for the file `D/n`: outside it when no source-yielding directory is
+    named like the file's stem, or that directory is a clean package -/
+def dirCellOK (fs : FS) (o : Opts) (fuel : Nat) (D : Path) (n : Name) : Bool :=
+  !hasSourceBelow fs fuel (D ++ [(splitext n).1]) || cleanShadow fs o D (splitext n).1
+
 /-- the sibling stub of a source file: `x.py` ↦ `x.pyi` (also `__init__.py` ↦ `__init__.pyi`) -/
 def stubOf (p : Path) : Path :=
   match p.getLast? with
